@@ -52,6 +52,20 @@ def t_copyfile(ex):
     crash_invariant(ex, P, tr.effects, True)
     if not out.raised:
         ex.oblige(f"{P}.ensures.success_means_replaced", bool(tr.effects) and tr.effects[-1] == ("rename", NEW, LOC))
+    if fault:
+        # an operation that failed (EIO) must not be papered over: the new entry goes into place only with everything a fault-free run does to it
+        it0 = Interp(ex, label=P + ".fault_free_reference")
+        tr0 = M.Trace()
+        obj0 = obj
+        if kind == "file":
+            obj0 = M.fs_obj(kind, LOC, ex, present=present)
+            obj0.fields["data"].trace = tr0
+        M.install(it0, ex, tr0, existing=M.fs_obj(pre, LOC, ex, tag="existing"))
+        call(it0, it0.target(OPS, "copyfile"), obj0, mkdirs=True)
+        renamed = any(e[0] == "rename" and e[2] == LOC for e in tr.effects)
+        ops_of = lambda t: [e[:2] for e in t.effects]
+        ex.oblige(f"{P}.ensures.after_a_failed_operation_the_entry_is_replaced_only_with_its_complete_metadata", (not renamed) or ops_of(tr) == ops_of(tr0),
+                  note=f"with the fault: {ops_of(tr)}; fault-free: {ops_of(tr0)}")
 
 
 def t_do_link(ex):
@@ -93,8 +107,8 @@ def enum_crashes(seed):
     WRAP = ("lchown", "chmod", "utime", "mkdir", "symlink", "mkfifo", "mknod", "rename", "link", "unlink", "rmdir")
 
     class Proxy:
-        def __init__(self, stop_at):
-            self.n, self.stop_at = 0, stop_at
+        def __init__(self, stop_at, eio=False):
+            self.n, self.stop_at, self.eio = 0, stop_at, eio
 
         def __getattr__(self, name):
             real = getattr(os, name)
@@ -104,9 +118,12 @@ def enum_crashes(seed):
             def f(*a, **k):
                 self.n += 1
                 if self.n == self.stop_at:
+                    if self.eio:
+                        raise OSError(errno.EIO, "injected I/O error")
                     raise _Stop()
                 return real(*a, **k)
             return f
+    mode_eio = [0]
     try:
         for s in range(15):
             rnd = random.Random(seed * 1000 + s)
@@ -145,7 +162,8 @@ def enum_crashes(seed):
                 if any((v[0] == "dir") != (before[k][0] == "dir") for k, v in want.items() if k in before):
                     break
                 cset = contents.contentsSet(livefs.scan(src, offset=src))
-                proxy = Proxy(stop)
+                eio = bool(mode_eio[0])
+                proxy = Proxy(stop, eio=eio)
                 real_os = ops.os
                 ops.os = proxy
                 stopped = False
@@ -167,18 +185,23 @@ def enum_crashes(seed):
                     old_ok = a is not None and a[:6] == b[:6]
                     new_ok = a is not None and w is not None and a[0] == w[0] and a[5] == w[5] and (w[0] == "sym" or (a[1:4] == w[1:4] and (w[0] != "file" or a[4] == w[4])))
                     if not (old_ok or new_ok) and len(fails) < 4:
-                        fails.append({"model": {"seed": s, "stop_after_os_call": stop - 1, "path": k, "before": list(map(str, b[:6])), "after": list(map(str, (a or ("gone",))[:6])), "new": list(map(str, (w or ("not in package",))[:6]))},
-                                      "detail": f"merge interrupted before os call #{stop}: pre-existing {k} is neither its old state {b[:5]} nor its complete new state {(w or ())[:5]}: {(a or ('gone',))[:5]}"})
+                        fails.append({"model": {"seed": s, "stop_after_os_call": stop - 1, "eio_instead_of_stop": bool(mode_eio[0]), "path": k, "before": list(map(str, b[:6])), "after": list(map(str, (a or ("gone",))[:6])), "new": list(map(str, (w or ("not in package",))[:6]))},
+                                      "detail": f"merge {'hit by EIO at' if mode_eio[0] else 'interrupted before'} os call #{stop}: pre-existing {k} is neither its old state {b[:5]} nor its complete new state {(w or ())[:5]}: {(a or ('gone',))[:5]}"})
                 for k in after:
                     if k not in before and k not in want and not k.endswith("#new") and len(fails) < 4:
                         fails.append({"model": {"seed": s, "stop_after_os_call": stop - 1, "path": k}, "detail": f"merge interrupted before os call #{stop}: unrelated path {k} appeared"})
                 shutil.rmtree(root, ignore_errors=True)
-                if not stopped:
-                    break
+                fired = proxy.n >= stop
+                if not fired:
+                    if mode_eio[0]:
+                        mode_eio[0] = 0
+                        break
+                    mode_eio[0], stop = 1, 1   # second pass over the same tree: the k-th call fails with EIO instead of the merge stopping dead
+                    continue
                 stop += 1
     finally:
         shutil.rmtree(scratch, ignore_errors=True)
-    return {"name": "C19.interrupted_merges.bounded_enumeration", "bound": "12 seeded trees of 4 entries merged over roots holding 3 of the same names and 3 hardlink groups of three names merged over regular files, pre-existing files partly hardlinked from elsewhere on the root; the merge stopped before every os call in turn "
+    return {"name": "C19.interrupted_merges.bounded_enumeration", "bound": "12 seeded trees of 4 entries merged over roots holding 3 of the same names and 3 hardlink groups of three names merged over regular files, pre-existing files partly hardlinked from elsewhere on the root; the merge stopped dead before every os call in turn and, in a second pass, every os call in turn failing with EIO "
             "(lchown, chmod, utime, mkdir, symlink, mkfifo, mknod, rename, link, unlink, rmdir); each pre-existing non-directory compared with its old and its complete new state", "cases": cases, "failures": fails}
 
 
